@@ -141,3 +141,156 @@ def st_writer_library(max_blocks=8):
     mwe = st.fixed_dictionaries({"t": st.just("mwerror"), "entry": entry, "err": st.sampled_from(["invalidname", "partial"])})
     block = st.one_of(entry, entry, entry, string, pre, ec, ic, failed, dupf, mwe)
     return st.lists(block, max_size=max_blocks)
+
+
+# ---------------------------------------------------------------------------------------------
+# Middleware configurations (DESIGN 3.4): JSON specs {"mw": name, **options}
+# ---------------------------------------------------------------------------------------------
+
+MARKER = "RAISEME"
+
+
+class _RaisingEncoder:
+    """Custom encoder object whose conversion raises on values containing MARKER."""
+
+    def unicode_to_latex(self, s):
+        if MARKER in s:
+            raise RuntimeError("encoder refuses " + MARKER)
+        return s.replace("é", "\\'e")
+
+
+class _RaisingDecoder:
+    def latex_to_text(self, s):
+        if MARKER in s:
+            raise RuntimeError("decoder refuses " + MARKER)
+        return s.replace("\\'e", "é")
+
+
+def all_middleware_specs():
+    import itertools
+
+    specs = [{"mw": "RemoveEnclosing"}, {"mw": "ResolveStringReferences"}, {"mw": "NormalizeFieldKeys"},
+             {"mw": "MonthInt"}, {"mw": "MonthAbbreviation"}, {"mw": "MonthLongString"}, {"mw": "SortFieldsAlphabetically"}]
+    for r, e, d in itertools.product((True, False), (True, False), ("{", '"')):
+        specs.append({"mw": "AddEnclosing", "reuse": r, "enclose_integers": e, "default": d})
+    specs += [{"mw": "LatexEncoding"}, {"mw": "LatexEncoding", "keep_math": False}, {"mw": "LatexEncoding", "enclose_urls": False},
+              {"mw": "LatexEncoding", "keep_math": False, "enclose_urls": False}, {"mw": "LatexEncoding", "custom": True}]
+    specs += [{"mw": "LatexDecoding"}, {"mw": "LatexDecoding", "keep_braced_groups": True}, {"mw": "LatexDecoding", "keep_math_mode": False},
+              {"mw": "LatexDecoding", "custom": True}]
+    for nf in (None, ["author"]):
+        for name in ("SeparateCoAuthors", "MergeCoAuthors", "SplitNameParts"):
+            specs.append({"mw": name, "name_fields": nf})
+        for style in ("last", "first"):
+            specs.append({"mw": "MergeNameParts", "style": style, "name_fields": nf})
+    five = ["String", "Preamble", "Entry", "ImplicitComment", "ExplicitComment"]
+    for order in (None, [], ["Entry"], ["ExplicitComment", "Entry", "String"], five[::-1]):
+        for pres in (True, False):
+            specs.append({"mw": "SortBlocks", "order": order, "preserve": pres})
+    for order, cs in ((["title", "author"], False), (["Author", "year"], True), ([], False)):
+        specs.append({"mw": "SortFieldsCustom", "order": order, "case_sensitive": cs})
+    return specs
+
+
+def make_middleware(spec, inplace=False):
+    import bibtexparser.middlewares as m
+    from bibtexparser import model
+
+    name = spec["mw"]
+    kw = {"allow_inplace_modification": inplace}
+    if name == "RemoveEnclosing":
+        return m.RemoveEnclosingMiddleware(**kw)
+    if name == "AddEnclosing":
+        return m.AddEnclosingMiddleware(reuse_previous_enclosing=spec["reuse"], enclose_integers=spec["enclose_integers"], default_enclosing=spec["default"], **kw)
+    if name == "ResolveStringReferences":
+        return m.ResolveStringReferencesMiddleware(**kw)
+    if name == "NormalizeFieldKeys":
+        return m.NormalizeFieldKeys(**kw)
+    if name == "MonthInt":
+        return m.MonthIntMiddleware(**kw)
+    if name == "MonthAbbreviation":
+        return m.MonthAbbreviationMiddleware(**kw)
+    if name == "MonthLongString":
+        return m.MonthLongStringMiddleware(**kw)
+    if name == "SortFieldsAlphabetically":
+        return m.SortFieldsAlphabeticallyMiddleware(**kw)
+    if name == "SortFieldsCustom":
+        return m.SortFieldsCustomMiddleware(order=tuple(spec["order"]), case_sensitive=spec["case_sensitive"], **kw)
+    if name == "LatexEncoding":
+        if spec.get("custom"):
+            return m.LatexEncodingMiddleware(encoder=_RaisingEncoder(), **kw)
+        opts = {k: spec[k] for k in ("keep_math", "enclose_urls") if k in spec}
+        return m.LatexEncodingMiddleware(**opts, **kw)
+    if name == "LatexDecoding":
+        if spec.get("custom"):
+            return m.LatexDecodingMiddleware(decoder=_RaisingDecoder(), **kw)
+        opts = {k: spec[k] for k in ("keep_braced_groups", "keep_math_mode") if k in spec}
+        return m.LatexDecodingMiddleware(**opts, **kw)
+    if name in ("SeparateCoAuthors", "MergeCoAuthors", "SplitNameParts"):
+        cls = getattr(m, name)
+        if spec.get("name_fields") is not None:
+            kw["name_fields"] = tuple(spec["name_fields"])
+        return cls(**kw)
+    if name == "MergeNameParts":
+        if spec.get("name_fields") is not None:
+            kw["name_fields"] = tuple(spec["name_fields"])
+        return m.MergeNameParts(style=spec["style"], **kw)
+    if name == "SortBlocks":
+        types = {"String": model.String, "Preamble": model.Preamble, "Entry": model.Entry, "ImplicitComment": model.ImplicitComment,
+                 "ExplicitComment": model.ExplicitComment}
+        if spec.get("order") is None:
+            return m.SortBlocksByTypeAndKeyMiddleware(preserve_comments_on_top=spec["preserve"])
+        return m.SortBlocksByTypeAndKeyMiddleware(block_type_order=tuple(types[t] for t in spec["order"]), preserve_comments_on_top=spec["preserve"])
+    raise ValueError(f"unknown middleware spec {spec!r}")
+
+
+NAME_KEYS = ("author", "editor", "translator")
+
+
+def name_field_types(lib):
+    """Type state of the name fields of the live entries: key -> 'str' | 'list[str]' | 'list[NameParts]' | 'mixed'."""
+    from bibtexparser.middlewares.names import NameParts
+    from bibtexparser.model import Entry
+
+    state = {}
+    for b in lib.blocks:
+        if type(b) is not Entry:
+            continue
+        for f in b.fields:
+            if f.key in NAME_KEYS:
+                v = f.value
+                if isinstance(v, str):
+                    t = "str"
+                elif isinstance(v, list) and all(isinstance(x, str) for x in v):
+                    t = "list[str]"
+                elif isinstance(v, list) and all(isinstance(x, NameParts) for x in v):
+                    t = "list[NameParts]" if v else "list[str]"
+                else:
+                    t = "mixed"
+                if state.get(f.key, t) != t:
+                    t = "mixed"
+                state[f.key] = t
+    return state
+
+
+def stage_compatible(spec, lib):
+    """True if the library's value types are what the middleware documents as its input."""
+    from bibtexparser.model import Entry
+
+    name = spec["mw"]
+    st_ = name_field_types(lib)
+    nf = tuple(spec.get("name_fields") or NAME_KEYS)
+    relevant = [st_[k] for k in nf if k in st_]
+    all_str = all(isinstance(f.value, str) for b in lib.blocks if type(b) is Entry for f in b.fields)
+    if name == "SeparateCoAuthors":
+        return all(t == "str" for t in relevant)
+    if name == "SplitNameParts":
+        return all(t == "list[str]" for t in relevant)
+    if name == "MergeNameParts":
+        return all(t == "list[NameParts]" for t in relevant)
+    if name == "MergeCoAuthors":
+        return all(t in ("str", "list[str]") for t in relevant)
+    if name in ("RemoveEnclosing",):
+        return all_str
+    if name == "AddEnclosing":
+        return all_str or spec["enclose_integers"] or True
+    return True
